@@ -608,7 +608,7 @@ def random_out(rng, cfg, in_range=True):
     return ('o', a, kind, pos, rng.randrange(4) if kind == PB else 0)
 
 
-def random_program(rng, known_ch, known_m, malformed=0.0):
+def _fresh_program(rng, known_ch, known_m, malformed=0.0):
     k = min(len(known_ch), rng.choice([1, 1, 2, 2, 3]))
     chans = sorted(rng.sample(sorted(known_ch), k)) if k else []
     if not chans or rng.random() < malformed:
@@ -620,6 +620,30 @@ def random_program(rng, known_ch, known_m, malformed=0.0):
         ms = sorted(set(ms + [rng.randrange(40, 43)]))                  # unknown measurement -> KeyError
     meas = [(m, tuple(sorted(rng.sample(WINDOW_POOL, rng.choice([1, 1, 2]))))) for m in ms]
     return (tuple(chans), tuple(meas), rng.choice([0, 0, 0, 2, 2, 3, 3, 1]))
+
+
+def _spec_pool():
+    """a fixed pool of program specifications (channel ids 0..7, measurement names 0..5): most registrations draw
+    from it, so that `create_program` runs once per specification and process (it dominates the run time
+    otherwise); the wirings the programs meet are random per history"""
+    import random
+    rng = random.Random(180018)
+    pool = []
+    for _ in range(700):
+        pool.append(_fresh_program(rng, set(range(8)), set(range(6))))
+    return pool
+
+
+SPEC_POOL = _spec_pool()
+
+
+def random_program(rng, known_ch, known_m, malformed=0.0):
+    if rng.random() < 0.85 and rng.random() >= 2 * malformed:
+        for _ in range(12):
+            spec = SPEC_POOL[rng.randrange(len(SPEC_POOL))]
+            if set(spec[0]) <= known_ch and {m for m, _ in spec[1]} <= known_m:
+                return spec
+    return _fresh_program(rng, known_ch, known_m, malformed)
 
 
 def history_generator(rng, cfg, ndacs, length, rewire_ok):
@@ -808,7 +832,7 @@ def _chunk_job(args):
     return {'col': col, 'violations': vio, 'nviolating': len(seen)}
 
 
-def run_chunks(ctx, kind, jobs, label, chunk, compare=True):
+def run_chunks(ctx, kind, jobs, label, chunk, compare=True, deadline=None):
     """all jobs in chunks (worker processes in the thorough tier); merges counters, cases, drifts; reports the
     first violating histories"""
     chunks = [(kind, jobs[k:k + chunk], label, compare) for k in range(0, len(jobs), chunk)]
@@ -818,8 +842,10 @@ def run_chunks(ctx, kind, jobs, label, chunk, compare=True):
         pool = multiprocessing.get_context('fork').Pool(min(16, os.cpu_count() or 1))
         results = pool.imap(_chunk_job, chunks)
     nviol = 0
+    done = 0
     try:
         for res in results:
+            done += 1
             col = res['col']
             for k, v in col.counters.items():
                 ctx.count(k, v)
@@ -838,6 +864,10 @@ def run_chunks(ctx, kind, jobs, label, chunk, compare=True):
             for h, i, what in res['violations']:
                 if len([v for v in ctx.violations if v['found_input']]) < 3:
                     report(ctx, h, i, what)
+            if deadline is not None and ctx.elapsed() > deadline and done < len(chunks):
+                # wall-clock budget of the tier (a loaded machine): stop here, the evidence says how far it got
+                ctx.extra[label + '_stopped_at_budget'] = '%d of %d histories' % (done * chunk, len(jobs))
+                break
     finally:
         if not (ctx.quick or len(chunks) < 4):
             pool.terminate()
@@ -968,7 +998,8 @@ def run(ctx: core.Ctx):
     run_chunks(ctx, 'ops', jobs, 'exh', 1000)
 
     # random histories
-    run_chunks(ctx, 'random', random_jobs(ctx.fork('histories'), ctx.n(500, 20000), 25), 'rnd', 250)
+    run_chunks(ctx, 'random', random_jobs(ctx.fork('histories'), ctx.n(500, 20000), 25), 'rnd', 250,
+               deadline=None if ctx.quick else 600)
 
     # failing-input search after a drift that the judge did not turn into a violation
     if ctx.drifts and not ctx.violations:
